@@ -20,13 +20,13 @@ tvars == <<vars, l, done>>
 Rec == TraceLog[l]
 ToSet(sq) == {sq[i] : i \in 1..Len(sq)}
 
-TraceInit == /\ sc = [shape |-> "bare", ha |-> "never", hb |-> "never", up |-> "always", rules |-> "none", exempt |-> "none"]
+TraceInit == /\ sc = [shape |-> "bare", ha |-> "never", hb |-> "never", up |-> "always", rules |-> "none", exempt |-> "none", wrap |-> "cmp"]
              /\ pc = "idle" /\ out = [probes |-> << >>, problems |-> {}]
              /\ l = 1 /\ done = FALSE
 
 TScenario ==
   /\ l <= Len(TraceLog) /\ Rec.ev = "Scenario"
-  /\ LET s == [shape |-> Rec.shape, ha |-> Rec.han, hb |-> Rec.hbn, up |-> Rec.upn, rules |-> Rec.rules, exempt |-> Rec.exempt]
+  /\ LET s == [shape |-> Rec.shape, ha |-> Rec.han, hb |-> Rec.hbn, up |-> Rec.upn, rules |-> Rec.rules, exempt |-> Rec.exempt, wrap |-> Rec.wrap]
          all == {[class |-> Rec.problems[i].class, sev |-> Rec.problems[i].severity] : i \in 1..Len(Rec.problems)}
          onsel == {[class |-> Rec.problems[i].class, sev |-> Rec.problems[i].severity] :
                      i \in {j \in 1..Len(Rec.problems) : Rec.problems[j].onsel}}
@@ -34,7 +34,7 @@ TScenario ==
          noSample == Rec.truth_range_points = 0
          wellformed == s \in Scenario /\ ToSet(Rec.ha) = Hist(s.ha) /\ ToSet(Rec.hb) = Hist(s.hb) /\ ToSet(Rec.up) = UpHist(s.up)
          m == Verdict(s)
-         sig == [shape |-> Rec.shape, ha |-> Rec.han, hb |-> Rec.hbn, up |-> Rec.upn, rules |-> Rec.rules, exempt |-> Rec.exempt]
+         sig == s
      IN
      /\ IF wellformed THEN TRUE ELSE PrintT(<<"TRUTH", Rec.id, ToJson([what |-> "scenario record malformed"])>>)
      /\ wellformed =>
